@@ -602,7 +602,10 @@ func ExecutePlan(plan *Plan, p ExecuteParams) (result *Result) {
 
 	extErrs, executionFinishFn := handleExtensionsExecutionDidStart(&p)
 	if len(extErrs) != 0 {
-		return &Result{Errors: extErrs}
+		// finish the execution phase of the extensions that did start it
+		aborted := &Result{Errors: extErrs}
+		aborted.Errors = append(aborted.Errors, executionFinishFn(aborted)...)
+		return aborted
 	}
 	defer func() {
 		extErrs := executionFinishFn(result)
